@@ -73,6 +73,7 @@ type Result struct {
 	Err     string
 	Site    string
 	Ms      float64
+	runaway bool // no verdict within the general watchdog (not one of the short, expected-to-block waits)
 	dirty   bool // the rig must be rebuilt (head moved, or a panic / hang left shared objects in an unknown state)
 }
 
@@ -176,7 +177,7 @@ func guarded(p *prepared) Result {
 	select {
 	case r = <-done:
 	case <-time.After(to):
-		r = Result{Verdict: "TIMEOUT", Err: fmt.Sprintf("no verdict after %v", to), Site: hungSite()}
+		r = Result{Verdict: "TIMEOUT", Err: fmt.Sprintf("no verdict after %v", to), Site: hungSite(), runaway: p.timeout == 0}
 	}
 	runtime.ReadMemStats(&m1)
 	r.Alloc = int64(m1.TotalAlloc - m0.TotalAlloc)
@@ -197,12 +198,9 @@ func guarded(p *prepared) Result {
 // hungSite names the repository function a goroutine of this process is blocked in while executing a case
 // (best effort, for the report only).
 func hungSite() string {
-	buf := make([]byte, 1<<20)
+	buf := make([]byte, 4<<20)
 	n := runtime.Stack(buf, true)
-	for _, g := range strings.Split(string(buf[:n]), "\n\n") {
-		if !strings.Contains(g, "main.guarded.func1") && !strings.Contains(g, "(*IdenaGossipHandler).handle") {
-			continue
-		}
+	first := func(g string) string {
 		lines := strings.Split(g, "\n")
 		for i, l := range lines {
 			if strings.HasPrefix(l, "github.com/idena-network/idena-go/") {
@@ -223,8 +221,31 @@ func hungSite() string {
 				return strings.TrimPrefix(fn, "github.com/idena-network/idena-go/") + " " + loc
 			}
 		}
+		return ""
 	}
-	return ""
+	best, bestId := "", -1
+	for _, g := range strings.Split(string(buf[:n]), "\n\n") {
+		var id int
+		fmt.Sscanf(g, "goroutine %d ", &id)
+		if strings.Contains(g, "main.guarded.func1") {
+			if s := first(g); s != "" && id > bestId {
+				best, bestId = s, id
+			}
+		}
+	}
+	if best != "" {
+		return best
+	}
+	for _, g := range strings.Split(string(buf[:n]), "\n\n") {
+		var id int
+		fmt.Sscanf(g, "goroutine %d ", &id)
+		if strings.Contains(g, "(*IdenaGossipHandler).handle") && id > bestId {
+			if s := first(g); s != "" {
+				best, bestId = s, id
+			}
+		}
+	}
+	return best
 }
 
 func trunc(s string, n int) string {
@@ -240,10 +261,8 @@ func getRig(class string) *rig {
 		switch class {
 		case "empty":
 			r = buildEmpty(seed)
-		case "populated":
-			r = buildPopulated(seed)
 		default:
-			panic("unknown state class " + class)
+			r = buildPopulated(seed, class)
 		}
 		// one virtual clock for every world of the process (NewWorld installs its own)
 		r.w.Clock = clock
@@ -331,6 +350,15 @@ func main() {
 		w.Flush()
 		if dw != nil {
 			dw.Flush()
+		}
+		if r.Verdict == "TIMEOUT" && r.runaway {
+			// the goroutine that did not come back may be spinning or allocating: leave it behind with the process
+			fmt.Printf("RESTART-AFTER-TIMEOUT case %d\n", c.Id)
+			w.Close()
+			if dw != nil {
+				dw.Close()
+			}
+			os.Exit(4)
 		}
 	}
 	if inf != nil {
